@@ -132,6 +132,13 @@ Kind(k) ==
                                            A("tla-str", "q", "inline", T_zz, "none")>>, FALSE)
     [] k = "tla_dup"                -> K(<<A("tla-str", "x", "inline", T_eq, "none"),
                                            A("tla-code", "x", "inline", T_cd, "concat")>>, FALSE)
+    \* external variables and top-level arguments are two name spaces: the same name in both is no duplicate
+    [] k = "tla_ext_same"           -> K(<<A("ext-str", "x", "inline", T_zz, "none"),
+                                           A("tla-str", "x", "inline", T_eq, "none")>>, FALSE)
+    [] k = "tla_ext_same_code"      -> K(<<A("tla-code", "y", "inline", T_ov, "concat"),
+                                           A("ext-code", "y", "inline", T_cd, "concat"),
+                                           A("tla-str", "x", "inline", T_eq, "none"),
+                                           A("ext-str", "x", "inline", T_zz, "none")>>, FALSE)
     [] k = "tla_lazy_unused"        -> K(<<A("tla-str", "x", "inline", T_eq, "none"),
                                            A("tla-code", "z", "inline", <<>>, "fail")>>, FALSE)
     [] k = "tla_fail_used"          -> K(<<A("tla-code", "x", "inline", <<>>, "fail")>>, FALSE)
